@@ -63,6 +63,10 @@ Section AutoTheta.
     vc (sbest (nm_run Rltb o th_cost sd (oth_seed0 oth_guess) (oth_seed1 oth_guess) oth_max_iter)).
 End AutoTheta.
 
+(* the poling that PeriodicPoling::try_as_optimum / SPDC::assign_optimum_periodic_poling install, from a base poling that is
+   On (base_on = true) or Off, given opp = the Ok value of optimum_poling_period *)
+Definition assigned_poling (base_on : bool) (opp : R) : poling := PPOn (tao_period base_on opp) (tao_positive base_on opp).
+
 (* exact real arithmetic for the simplex operations *)
 Definition real_ops : @ops R :=
   mkOps (fun p => p * 1) (fun x0 w => x0 + (x0 - w) * 1) (fun x0 xr => x0 + (xr - x0) * 2)
